@@ -67,6 +67,8 @@ EXTRA_CLAIM = "org_alias"     # a definition variant with one more, harmless cla
 
 
 def driver_input(scripts, members, mode="run", mutant=""):
+    # VERIF_OAUTH_MUTANT=always-active: binding self-test, the driver records every introspection answer as "active"
+    mutant = mutant or os.environ.get("VERIF_OAUTH_MUTANT", "")
     return dict(mode=mode, policy=policy(sorted(set(members) | {EXTRA_CLAIM})), scripts=scripts, unit=UNIT, token_ttl=TOKEN_TTL,
                 members=sorted(members), mutant=mutant)
 
@@ -79,12 +81,22 @@ def discover(binary):
     return res[0]["members"]
 
 
+def run_shards(binary, inp, shards, timeout):
+    """vlib.run_driver_parallel; a shard whose node did not come up (port taken by a concurrent check) is retried once."""
+    try:
+        return vlib.run_driver_parallel(binary, inp, "scripts", shards, timeout=timeout)
+    except Inconclusive as e:
+        if "driver failed" not in str(e):
+            raise
+        return vlib.run_driver_parallel(binary, inp, "scripts", shards, timeout=timeout)
+
+
 # ------------------------------------------------------------------------------------------ behaviours
 
 CRED_FLAGS = {"vcsig", "revoked", "expired"}
 
 
-def concretise(beh, rnd, family, idx):
+def concretise(beh, rnd, family, idx, force=None):
     """Adds the concrete choices the model abstracts from (seeded): proof formats, defect variants, definition size."""
     steps = []
     fmt_all = rnd.choice(["ldp", "jwt"])
@@ -95,6 +107,8 @@ def concretise(beh, rnd, family, idx):
             if family != "win":
                 st["fmt"] = fmt_all if rnd.random() < 0.8 else rnd.choice(["ldp", "jwt"])
             st["vcfmt"] = rnd.choice(["ldp", "jwt"])
+            if force:
+                st["fmt"], st["vcfmt"] = force
             st["var"] = {f: rnd.randrange(6) for f in st.get("d", [])}
             st["var"]["issuer"] = rnd.randrange(2)
             st["pd2"] = bool(pd2 and st.get("def", "plain") == "plain" and "partial" not in st.get("d", [])) if family not in ("code", "code2") else pd2
@@ -120,6 +134,50 @@ def pick(behaviours, n, rnd, must=None):
     return (first + rest)[:n] if len(first) < n else first[:n]
 
 
+def step_key(s):
+    d = s.get("def")
+    return (s["a"], tuple(s.get("d", [])), s.get("stage") or s.get("res"), s.get("ext"), d if d not in (None, "plain") else None,
+            s.get("fmt") if s.get("fut") else None, s.get("fut"), s.get("dpop") if s["a"] == "CodeToken" else None)
+
+
+def keys_of(b):
+    """What a behaviour exercises: every (request, model stage) and every pair (previous answer, request)."""
+    ks = {("1", step_key(x)) for x in b}
+    ks |= {("2", x["a"], x.get("stage") or x.get("res"), step_key(y)) for x, y in zip(b, b[1:])}
+    return ks
+
+
+def cover_pick(behaviours, n, rnd, must=None):
+    """Seeded greedy cover: behaviours are taken as long as they exercise something new (keys_of), then at random up to n.
+    Returns (chosen, measured coverage of the keys)."""
+    behaviours = sorted((b for b in behaviours if b), key=lambda b: json.dumps(b, sort_keys=True))
+    rnd.shuffle(behaviours)
+    if must:
+        behaviours.sort(key=lambda b: 0 if must(b) else 1)
+    ks = [keys_of(b) for b in behaviours]
+    allkeys = set().union(*ks) if ks else set()
+    covered, chosen, rest = set(), [], list(range(len(behaviours)))
+    gain = lambda i: sum(1000 if k[0] == "1" else 1 for k in ks[i] - covered)   # (request, stage) first, then pairs
+    while rest and len(chosen) < n and covered != allkeys:
+        window = rest[:3000]
+        best = max(window, key=gain)
+        if not ks[best] - covered:
+            rest = rest[3000:] + window     # nothing new in this window: rotate
+            if all(not (ks[i] - covered) for i in rest[:3000]):
+                break
+            continue
+        chosen.append(best)
+        covered |= ks[best]
+        rest.remove(best)
+    for i in rest:
+        if len(chosen) >= n:
+            break
+        chosen.append(i)
+    one = lambda ks_: len([k for k in ks_ if k[0] == "1"])
+    return [behaviours[i] for i in chosen], dict(request_stage=one(covered), request_stage_of=one(allkeys),
+                                                 answer_then_request=len(covered) - one(covered), answer_then_request_of=len(allkeys) - one(allkeys))
+
+
 def gen_exhaustive(cfg, workers=2):
     g = vlib.tlc("MCOAuth", cfg, workers=workers, timeout=900)
     if not g.ok:
@@ -136,6 +194,28 @@ def gen_simulate(cfg, n, depth, seed):
     return s, vlib.dedupe_maximal(s.printed)
 
 
+ACTIONS = ["S2SToken", "S2SReplay", "Authorize", "AuthzResponse", "CodeToken", "Introspect", "Tick", "Age"]
+
+
+def action_coverage(raw):
+    """Transitions per action from TLC's -coverage output (vlib's parser does not know the '(l c l c)' location suffix
+    TLC adds for actions that are reached through another definition or sit inside Next)."""
+    spec = open(os.path.join(vlib.SPEC, "OAuth.tla")).read().splitlines()
+    out = {}
+    for m in re.finditer(r"^<(\w+) line \d+, col \d+ to line \d+, col \d+ of module OAuth(?: \((\d+) \d+ \d+ \d+\))?>: (\d+):(\d+)", raw, re.M):
+        name, loc, total = m.group(1), m.group(2), int(m.group(4))
+        if loc and 0 < int(loc) <= len(spec):
+            line = spec[int(loc) - 1]
+            hit = [a for a in ACTIONS if re.search(r"\b%s\(" % a, line)]
+            if hit:
+                name = hit[0]
+        if name == "S2SDo":
+            name = "S2SToken"
+        if name in ACTIONS:
+            out[name] = out.get(name, 0) + total
+    return out
+
+
 def check_model(cfg, workers=2, coverage=False):
     m = vlib.tlc("MCOAuth", cfg, workers=workers, timeout=1800, coverage=coverage)
     if m.error:
@@ -147,8 +227,15 @@ def check_model(cfg, workers=2, coverage=False):
 
 # ------------------------------------------------------------------------------------------ verdicts
 
+def with_reserved(sig):
+    # is the member one of the names the code reserves today? (a guard that is lost must not hide behind the known gap)
+    if sig.get("kind") in ("claim-injects-standard-member", "claim-overrides-standard-member"):
+        sig["reserved"] = sig.get("member") in CODE_GUARDED
+    return sig
+
+
 def sig_of(v):
-    return dict(v.get("sig") or {}, kind=v["kind"])
+    return with_reserved(dict(v.get("sig") or {}, kind=v["kind"]))
 
 
 def trace_sigs(inv, ev):
@@ -165,7 +252,8 @@ def trace_sigs(inv, ev):
             return [dict(kind="issued-with-defect", flow="code", defect="+".join(sorted(ev.get("d", []))) or "response")]
     if inv == "ReservedClaimsNotOverridable" and e == "introspect":
         est = ev.get("over_est", [])
-        return [dict(kind="claim-overrides-standard-member" if m in est else "claim-injects-standard-member", member=m) for m in ev.get("over", [])]
+        return [with_reserved(dict(kind="claim-overrides-standard-member" if m in est else "claim-injects-standard-member", member=m))
+                for m in ev.get("over", [])]
     if inv == "IntrospectSound" and e == "introspect":
         if ev.get("nclaims") == "dropped":
             return [dict(kind="introspection-claims-missing", endpoint="introspect_extended" if ev.get("ext") else "introspect")]
@@ -179,6 +267,52 @@ def trace_sigs(inv, ev):
 def _t(label, t0):
     if os.environ.get("VERIF_TIMING"):
         print("TIMING %-28s %6.1fs" % (label, time.time() - t0))
+
+
+def validate_linear(cfg, traces, timeout=600, batch=1000, max_rejected=12):
+    """Trace validation like vlib.validate_traces, but linear in the number of rejected traces and bounded: TLC consumes
+    the concatenated traces in order, so everything before the first rejected trace of a batch is accepted; the batch is
+    resumed behind it.  After max_rejected rejections the rest is left unvalidated (massive drift: the caller decides).
+    Returns (accepted, rejected[list of dict(index, event, kind)], not_validated)."""
+    import tempfile, shutil
+    accepted, rejected, i = 0, [], 0
+    while i < len(traces) and len(rejected) < max_rejected:
+        chunk = traces[i:i + batch]
+        lines, starts = [], []
+        for t in chunk:
+            starts.append(len(lines) + 1)
+            lines.append(json.dumps({"ev": "reset"}))
+            lines += [json.dumps(e) for e in t]
+        work = vlib.scratch("trace")
+        try:
+            tf = os.path.join(work, "trace.ndjson")
+            with open(tf, "w") as fh:
+                fh.write("\n".join(lines) + "\n")
+            r = vlib.tlc("TraceOAuth", cfg, workers=1, timeout=timeout, env={"VERIF_TRACE": tf}, deque=True)
+        finally:
+            shutil.rmtree(work, ignore_errors=True)
+        if r.error and "timeout" in r.error:
+            raise Inconclusive("trace validation: " + r.error)
+        if r.violation is None and "TRACE-REJECTED-AT" not in r.raw and r.error is None:
+            accepted += len(chunk)
+            i += len(chunk)
+            continue
+        m = re.search(r"TRACE-REJECTED-AT\D+(\d+)", r.raw)
+        if r.violation and r.violation != "Progress":
+            kind = "invariant:" + r.violation
+            mm = re.findall(r"^/\\ l = (\d+)", r.raw, re.M)
+            at = int(mm[-1]) - 1 if mm else None
+        elif m:
+            kind, at = "no-matching-action", int(m.group(1))
+        else:
+            raise Inconclusive("trace validation failed unexpectedly: %s\n%s" % (r.error, r.raw[-2000:]))
+        at = at or 1
+        k = max(j for j, st in enumerate(starts) if st <= at)
+        ev = json.loads(lines[at - 1]) if 0 < at <= len(lines) else None
+        rejected.append(dict(index=i + k, event=ev, kind=kind))
+        accepted += k
+        i += k + 1
+    return accepted, rejected, len(traces) - i if i < len(traces) else 0
 
 
 def run(prop, tier, seed, replay=None):
@@ -210,17 +344,21 @@ def run(prop, tier, seed, replay=None):
     # ---- 1. TLC: the prescriptive design satisfies C02 (exhaustive); behaviours from the descriptive model
     from concurrent.futures import ThreadPoolExecutor
     checks = ["OAuth.s2s.quick.cfg", "OAuth.s2s.pairs.quick.cfg", "OAuth.win.check.cfg", "OAuth.code.quick.cfg", "OAuth.ovr.check.cfg"] if quick else \
-             ["OAuth.s2s.thorough.cfg", "OAuth.win.check.cfg", "OAuth.code.thorough.cfg", "OAuth.ovr.check.cfg"]
-    gens = ["OAuth.win.gen.cfg", "OAuth.s2s.gen.pairs.cfg", "OAuth.code.gen.cfg", "OAuth.code.gen.pairs.cfg", "OAuth.ovr.gen.cfg"]
+             ["OAuth.s2s.thorough.cfg", "OAuth.s2s.seq5.thorough.cfg", "OAuth.win.check.cfg", "OAuth.code.thorough.cfg", "OAuth.ovr.check.cfg"]
+    gens = ["OAuth.win.gen.cfg", "OAuth.s2s.gen.pairs.cfg", "OAuth.s2s.gen.life.cfg", "OAuth.code.gen.cfg", "OAuth.code.gen.pairs.cfg", "OAuth.ovr.gen.cfg"]
     if not quick:
         gens.append("OAuth.s2s.gen.seq.cfg")
-    n = dict(pairs_single=10 ** 6, pairs=220, seq=260, win=36, code=160, codepairs=120, ovr=10 ** 6) if quick else \
-        dict(pairs_single=10 ** 6, pairs=10 ** 6, seq=5000, win=260, code=10 ** 6, codepairs=10 ** 6, ovr=10 ** 6)
-    fam, scripts = {}, []
+    n = dict(pairs_single=10 ** 6, pairs=330, life=260, seq=200, win=36, code=140, codepairs=330, ovr=10 ** 6) if quick else \
+        dict(pairs_single=10 ** 6, pairs=10 ** 6, life=6000, seq=2500, win=260, code=10 ** 6, codepairs=10 ** 6, ovr=10 ** 6)
+    fam, scripts, cover_keys = {}, [], {}
 
-    def add_family(f, bs):
+    def select(f, bs, k, must=None):
+        chosen, cover_keys[f] = cover_pick(bs, k, rnd, must)
+        return chosen
+
+    def add_family(f, bs, force=None):
         fam[f] = bs
-        out = [concretise(b, random.Random("%s/%s" % (seed, f + str(i))), f, i) for i, b in enumerate(bs)]
+        out = [concretise(b, random.Random("%s/%s" % (seed, f + str(i))), f, i, force and force[i % len(force)]) for i, b in enumerate(bs)]
         scripts.extend(out)
         return out
 
@@ -236,7 +374,7 @@ def run(prop, tier, seed, replay=None):
         behaviours["OAuth.win.gen.cfg"] = fg["OAuth.win.gen.cfg"].result()[1]
         rt = add_family("win", pick([b for b in behaviours["OAuth.win.gen.cfg"] if any(s["a"] == "S2SReplay" for s in b)], n["win"], rnd,
                                     must=interesting_window))
-        f_rt = drv.submit(vlib.run_driver_parallel, binary, driver_input(rt, all_members), "scripts", max(1, min(4, len(rt) // 40 + 1)), timeout=400)
+        f_rt = drv.submit(run_shards, binary, driver_input(rt, all_members), max(1, min(4, len(rt) // 40 + 1)), 400)
         models, cover = [], {}
         states = transitions = 0
         for c in checks:
@@ -244,14 +382,14 @@ def run(prop, tier, seed, replay=None):
             states += m.distinct
             transitions += m.generated
             models.append(dict(cfg=c, states=m.distinct, transitions=m.generated, depth=m.depth, wall_s=round(m.wall, 1)))
-            for k, v in m.coverage.items():
+            for k, v in action_coverage(m.raw).items():
                 cover[k] = cover.get(k, 0) + v
         for g in gens[1:]:
             behaviours[g] = fg[g].result()[1]
         if fs is not None:
             behaviours["OAuth.s2s.gen.seq.cfg"] = fs.result()[1]
         if not quick:
-            dead = [a for a in ("S2SDo", "S2SReplayDo", "Authorize", "AuthzDo", "CodeDo", "IntrospectDo", "Tick", "Age") if cover.get(a, 0) == 0]
+            dead = [a for a in ACTIONS if cover.get(a, 0) == 0]
             if dead:
                 raise Inconclusive("vacuity: actions never fired in the model runs: %s (%s)" % (dead, cover))
         _t("tlc", t0)
@@ -259,11 +397,24 @@ def run(prop, tier, seed, replay=None):
         # ---- 2. selection (seeded) and concretisation
         pb = behaviours["OAuth.s2s.gen.pairs.cfg"]
         add_family("s2s1", pick([b for b in pb if all(len(s.get("d", [])) <= 1 for s in b)], n["pairs_single"], rnd))
-        add_family("s2s2", pick([b for b in pb if any(len(s.get("d", [])) > 1 for s in b)], n["pairs"], rnd))
-        add_family("seq", pick(behaviours["OAuth.s2s.gen.seq.cfg"], n["seq"], rnd))
-        add_family("code", pick(behaviours["OAuth.code.gen.cfg"], n["code"], rnd,
-                                must=lambda b: any(s["a"] == "Introspect" and s.get("res") == "active" for s in b)))
-        add_family("code2", pick(behaviours["OAuth.code.gen.pairs.cfg"], n["codepairs"], rnd))
+        add_family("s2s2", select("s2s2", [b for b in pb if any(len(s.get("d", [])) > 1 for s in b)], n["pairs"]))
+        add_family("life", select("life", behaviours["OAuth.s2s.gen.life.cfg"], n["life"],
+                                 must=lambda b: any(s["a"] == "Introspect" and s["res"] == "inactive" and s["t"] != "bogus" for s in b)))
+        # every single defect (and the valid request) in all four combinations of presentation / credential proof format
+        one = sorted((b for b in pb if len(b) >= 1 and b[0]["a"] == "S2SToken" and len(b[0].get("d", [])) <= 1 and
+                      (len(b) == 1 or b[1]["a"] == "Introspect")), key=lambda b: json.dumps(b, sort_keys=True))
+        first = {}
+        for b in one:
+            first.setdefault(json.dumps(b[0], sort_keys=True), b)
+        one = list(first.values())
+        combos = [(a, c) for a in ("ldp", "jwt") for c in ("ldp", "jwt")]
+        add_family("fmt", [b for b in one for _ in combos], force=combos)
+        # (always with the behaviours in which a token expires and is introspected afterwards)
+        add_family("seq", pick(behaviours["OAuth.s2s.gen.seq.cfg"], n["seq"], rnd,
+                               must=lambda b: any(s["a"] == "Introspect" and s["res"] == "inactive" and s["t"] != "bogus" for s in b)))
+        add_family("code", select("code", behaviours["OAuth.code.gen.cfg"], n["code"],
+                                 must=lambda b: any(s["a"] == "Introspect" and s.get("res") == "active" for s in b)))
+        add_family("code2", select("code2", behaviours["OAuth.code.gen.pairs.cfg"], n["codepairs"]))
         # (the generation run prints one behaviour per state; only "one token request, then introspections" is wanted here)
         ovr = vlib.dedupe_maximal([b for b in fg["OAuth.ovr.gen.cfg"].result()[0].printed
                                    if len(b) > 1 and b[0]["a"] == "S2SToken" and all(s["a"] == "Introspect" and s["t"] != "bogus" for s in b[1:])])
@@ -274,7 +425,7 @@ def run(prop, tier, seed, replay=None):
 
         # ---- 3. replay on the real node
         other = [s for s in scripts if not s["realtime"]]
-        results = vlib.run_driver_parallel(binary, driver_input(other, all_members), "scripts", 4 if quick else 6, timeout=500)
+        results = run_shards(binary, driver_input(other, all_members), 4 if quick else 6, 500)
         rt_res = f_rt.result()
         # real-time scripts that missed their schedule (loaded machine) are run once more, alone
         late = [by_id[r["id"]] for r in rt_res if r.get("skipped")]
@@ -311,7 +462,7 @@ def run(prop, tier, seed, replay=None):
         for dn in (r.get("drift") or [])[:1]:
             if len(rep.notes) < 12:
                 rep.notes.append("DRIFT: %s %s" % (r["id"], dn[:300]))
-        if len(samples) < 3 and len(sc["steps"]) >= 3 and r.get("observed") and not r["violations"] and f in ("seq", "code", "win"):
+        if len(samples) < 3 and len(sc["steps"]) >= 3 and r.get("observed") and not r["violations"] and f in ("seq", "life", "code", "win"):
             samples.append(dict(script=sc["steps"], observed=r["observed"][:6]))
     if nerr <= max(2, len(results) // 50):
         for msg in rep.inconclusive[:3]:
@@ -324,7 +475,7 @@ def run(prop, tier, seed, replay=None):
         if len(skipped) > len(rt) // 2:
             rep.inconclusive.append("the machine is too loaded for the real-time scripts (%d of %d missed their schedule)" % (len(skipped), len(rt)))
     # vacuity: in every family valid requests must be answered with a token, otherwise nothing was tested
-    for f in ("s2s1", "seq", "code", "ovr", "win"):
+    for f in ("s2s1", "life", "code", "ovr", "win"):
         if fam.get(f) and fam_clean.get(f, 0) == 0:
             rep.inconclusive.append("no valid request of family %s was answered with a token (dead baseline)" % f)
     if clean_fail > max(3, (clean_ok + clean_fail) // 20):
@@ -337,20 +488,22 @@ def run(prop, tier, seed, replay=None):
     drifty = [r for r in withtrace if r.get("drift")]
     good = [r for r in withtrace if not r.get("drift")]
     traces = [r["trace"] for r in good]
-    acc, rej = vlib.validate_traces("TraceOAuth", "OAuth.trace.cfg", traces, timeout=900, batch=1000)
+    acc, rej, unval = validate_linear("OAuth.trace.cfg", traces, timeout=900)
+    n_tlc_rejected = len(rej)
     rej = rej + [dict(index=None, event=dict(note=r["drift"][0][:200]), kind="driver-drift", id=r["id"]) for r in drifty]
     for x in rej:
         if x["index"] is not None:
             x["id"] = good[x["index"]]["id"]
     for x in rej[:5]:
         rep.notes.append("DRIFT: trace %s is not a behaviour of the specification at event %s" % (x["id"], json.dumps(x["event"])[:300]))
-    if len(rej) > max(3, len(withtrace) // 20) and not rep.violations:
-        rep.inconclusive.append("%d of %d recorded traces are not behaviours of the specification (spec/code drift)" % (len(rej), len(withtrace)))
+    if (unval or len(rej) > max(3, len(withtrace) // 20)) and not rep.violations:
+        rep.inconclusive.append("%d of %d recorded traces are not behaviours of the specification, %d left unvalidated (spec/code drift)"
+                                % (len(rej), len(withtrace), unval))
     # the C02 invariants on the states reconstructed from real executions; the executions the oracle above has
     # already judged as violating are left out (TLC stops at the first violated invariant of a batch)
     rejected_ids = {x["id"] for x in rej}
     calm = [r for r in good if r["id"] not in violating and r["id"] not in rejected_ids]
-    acc2, rej2 = vlib.validate_traces("TraceOAuth", "OAuth.trace.props.cfg", [r["trace"] for r in calm], timeout=900, batch=1000)
+    acc2, rej2, unval2 = ([0, [], len(calm)] if unval else validate_linear("OAuth.trace.props.cfg", [r["trace"] for r in calm], timeout=900))
     for x in rej2[:20]:
         r = calm[x["index"]]
         if x["kind"].startswith("invariant:"):
@@ -360,16 +513,18 @@ def run(prop, tier, seed, replay=None):
             rep.notes.append("DRIFT: trace %s rejected at %s" % (r["id"], json.dumps(x["event"])[:200]))
 
     _t("traces", t0)
-    cov = dict(states=states, transitions=transitions,
-               traces_validated_against_impl=acc + len(rej), traces_accepted=acc, traces_rejected=len(rej),
+    cov = dict(states=states, transitions=transitions, known_findings_reproduced=sorted(rep.known),
+               traces_validated_against_impl=acc + n_tlc_rejected, traces_accepted=acc, traces_rejected=n_tlc_rejected,
+               traces_not_sent_to_tlc_because_the_driver_saw_drift=len(drifty), traces_left_unvalidated=unval,
                traces_checked_with_property_invariants=acc2 + len(rej2), traces_violating_property_invariants=len([x for x in rej2 if x["kind"].startswith("invariant:")]),
                samples=samples or [scripts[0]["steps"]], models=models,
                behaviours_available={g: len(b) for g, b in behaviours.items()},
                behaviours_replayed_on_real_code=len(results), behaviours_per_family={f: len(b) for f, b in fam.items()},
+               request_stage_pairs_covered_by_selection=cover_keys,
                requests_judged=nchecks, valid_requests_answered_with_token=clean_ok, valid_requests_rejected=clean_fail,
                scripts_with_violation=len(violating), realtime_scripts_not_judged=len(skipped), drift_notes=ndrift, inconclusive_scripts=nerr,
                introspection_members_discovered=members, members_not_in_specification=new_members,
-               action_coverage=cover, exhaustive=not quick,
+               action_coverage=cover, exhaustive=False, model_configs_exhausted=True,
                rule="TLC exhausts the prescriptive OAuth model configs listed under 'models' (IssuedOnlyIfClean, OneTokenPerNonce, CodeSingleUse, "
                     "IntrospectFaithful, ReservedClaimsNotOverridable, NonceBurntEvenOnLaterFailure); one witness behaviour per distinct (state, request) "
                     "of the DESCRIPTIVE model is replayed over HTTP on a whole in-process node with harness-built presentations (defect flags realised "
@@ -378,7 +533,7 @@ def run(prop, tier, seed, replay=None):
     vlib.write_evidence(prop, tier, seed, "model_checking", cov, time.time() - t0, len(rep.violations),
                         ["jwx / json-gold verify signatures correctly (C01, C17 cover the verifier)",
                          "small scope: <= 2 defect flags per request, <= 2 nonces, <= 2 sessions, behaviours of <= 4-6 steps",
-                         "token expiry is realised by moving issued_at/expiration of the stored token back; presentation and nonce windows use real time (5 s units)",
+                         "token expiry is realised by moving issued_at/expiration of the stored token back; presentation and nonce windows use real time (units of 6 s, requests 2.5 s into the unit)",
                          "in-memory session store (the node's default); Redis / memcached backends are not exercised",
                          "the user-wallet leg of OpenID4VP and the legacy v1 JWT-bearer grant (auth/services/oauth) are not driven"])
     return rep.finish()
